@@ -118,6 +118,16 @@ func (ex *Explorer) Run() *Result {
 	ex.start = time.Now()
 	ex.work = [][]int64{ex.initial}
 	var wg sync.WaitGroup
+	if os.Getenv("VERIF_PROGRESS") != "" {
+		go func() {
+			for {
+				time.Sleep(15 * time.Second)
+				ex.mu.Lock()
+				fmt.Fprintf(os.Stderr, "[progress %s] %.0fs paths=%d pending=%d active=%d vio=%d\n", ex.entry.Name(), time.Since(ex.start).Seconds(), ex.res.Paths, len(ex.work), ex.active, len(ex.res.Violations))
+				ex.mu.Unlock()
+			}
+		}()
+	}
 	for i := 0; i < ex.cfg.Workers; i++ {
 		wg.Add(1)
 		go func(id int) {
